@@ -546,7 +546,7 @@ fill_yly_ycw(bitint383_t *restrict cand, unsigned int y, const bitint447_t *dow)
 			continue;
 		} else if (!(yd = ycw_get_yday(y, cd.cnt, cd.dow))) {
 			continue;
-		} else if (!(md = yd_to_md(y, yd)).m) {
+		} else if (!(md = yd_to_md(y, yd)).m || md.m > 12U) {
 			continue;
 		}
 		/* otherwise it's looking good */
@@ -571,7 +571,7 @@ fill_yly_yd(
 		    !((wd_mask >> yd_get_wday(y, yd)) & 0b1U)) {
 			/* weekday is masked out */
 			continue;
-		} else if (!(md = yd_to_md(y, yd)).m) {
+		} else if (!(md = yd_to_md(y, yd)).m || md.m > 12U) {
 			/* something's wrong again */
 			continue;
 		}
@@ -669,7 +669,7 @@ fill_yly_eastr(
 		} else if (!(yd += offs) || yd > 366) {
 			/* huh? */
 			continue;
-		} else if (!(md = yd_to_md(y, yd)).m) {
+		} else if (!(md = yd_to_md(y, yd)).m || md.m > 12U) {
 			continue;
 		} else if (!md_match_p(md, m, d)) {
 			/* can't use this one, user wants it masked */
